@@ -275,10 +275,46 @@ def roots_are_registered_consistently(F, res, rule="T3"):
            ok_sid, where=ap0.loc(), how=how)
 
 
+def path_dependencies_are_normalised(F, res, rule="T8"):
+    """T8: "each file belongs to the innermost package root containing it" - to exactly one root, under the path the client uses
+    for it. A dependency given as `{ path = "../lib" }` is joined to the depending project's root; registered as it is
+    (`<app>/../lib`) the package becomes a second root with a second copy of every file of lib, definitions lead to URIs the
+    client never sends, and an unsaved document of lib is not the module the import resolves to. The root handed on for a
+    path dependency (the argument of the recursive assemble_graph call that depends on the manifest's `path` entry) passes
+    through a function that resolves `..` segments lexically (it matches on std::path::Component); no file-system call (T4/V9)."""
+    ag = F.fn("glas::server::Server::assemble_graph")
+    d = FL.Defs(ag)
+    sites, bad = 0, []
+    norm = set()
+    for p_, g in F.fns.items():
+        if not p_.startswith(("glas::", "<glas::")) or not g.blocks:
+            continue
+        for b in g.reachable():
+            t = g.term(b)
+            if t["k"] == "switch":
+                l = op_local(t["op"])
+                o = FL.Defs(g).origin(l) if l is not None else {}
+                if o.get("k") == "rv" and o["rv"]["k"] == "discr" and (o["rv"].get("of") or "").endswith("path::Component"):
+                    norm.add(p_)
+    for b, t in ag.calls():
+        if (callee(t) or "") != ag.path:
+            continue
+        dep = FL.depends(F, ag, d, t["args"][1], use_bb=b)
+        if "path" not in dep["strs"]:
+            continue
+        sites += 1
+        if not (set(dep["calls"]) & {FL.short(n) for n in norm} or set(dep["calls"]) & norm):
+            bad.append("line %d" % t["ln"])
+    res.ob(rule, "assemble_graph/path-dependency-normalised", "the root of a path dependency is normalised (`..` resolved lexically) before it is "
+           "registered as a package root", sites >= 1 and not bad, where=ag.loc(),
+           how="recursive calls for a manifest `path`: %d; not through a normalising function (%s): %s" % (sites, sorted(FL.short(n) for n in norm), bad))
+
+
 def run(F, res, tier):
     direct_dependencies_only(F, res)
     lookups_go_through_visible_modules(F, res)
     roots_are_registered_consistently(F, res)
+    path_dependencies_are_normalised(F, res)
     from rules import c08 as _c08, c15 as _c15, c05 as _c05, c07 as _c07
     _c08.locality_comes_from_the_registered_path(F, res, rule="T4")      # V9 + V10 (longest root first)
     _c15.files_lie_below_their_root(F, res, rule="T4")                  # M10
